@@ -11,7 +11,8 @@ THEOREMS_C15 = ["Slock.C15V." + t for t in (
     "shift_beyond_length_repaired", "incr_short_operand_props_repaired", "incr_short_operand_no_cell_repaired")] + ["Slock.Value.consts_tie"]
 THEOREMS_C13 = ["Slock.C13V." + t for t in (
     "no_panic", "sane_preserved", "no_panic_run", "no_panic_run_wf", "no_panic_process_lock_data",
-    "parser_establishes_invariant", "short_frame_refused", "former_panic_witnesses_return")]
+    "parser_establishes_invariant", "short_frame_refused", "former_panic_witnesses_return",
+    "no_panic_decode_lock_command", "no_panic_decode_lock_command_cmd", "decode_lock_command_refuses_short")] + ["Slock.Value.exec_consts_tie"]
 THEOREMS = THEOREMS_C15 + THEOREMS_C13
 FINISH = {"level": "proof", "assumptions": [
     "a Go slice is modelled as (len bytes, bytes up to cap); top-level request frames have cap = len (Stream.ReadBytesFrame uses make)",
@@ -64,7 +65,10 @@ def build_value_harness(ctx):
     cpath = os.path.join(gen, "zz_verif_common_test.go")
     open(cpath, "w").write(common)
     overlay = {os.path.join(vlib.REPO, "server", "zz_verif_common_test.go"): cpath,
-               os.path.join(vlib.REPO, "server", "zz_verif_value_test.go"): os.path.join(hdir, "server", "zz_verif_value_test.go")}
+               os.path.join(vlib.REPO, "server", "zz_verif_value_test.go"): os.path.join(hdir, "server", "zz_verif_value_test.go"),
+               # the valueexec mode drives a real LockDB through the engine harness' vNewSeq
+               os.path.join(vlib.REPO, "server", "zz_verif_valueexec_test.go"): os.path.join(hdir, "server", "zz_verif_valueexec_test.go"),
+               os.path.join(vlib.REPO, "server", "zz_verif_engine_test.go"): os.path.join(hdir, "server", "zz_verif_engine_test.go")}
     ov = os.path.join(gen, "overlay.json")
     json.dump({"Replace": overlay}, open(ov, "w"))
     exe = os.path.join(vlib.BUILD, "server-value.test")
@@ -75,6 +79,40 @@ def build_value_harness(ctx):
         ctx.broken.append({"kind": "tie", "name": "harness build (server, value mode)", "detail": out[-3000:]})
         return None
     return exe
+
+
+def classify_exec(op, impl):
+    """distinct = (command, property flag, outcome class, big allocation, frame length bucket)"""
+    t = op.split(" ")
+    if len(t) < 3:
+        return None
+    f = t[1]
+    prop = len(f) >= 12 and int(f[10:12], 16) & 0x10 != 0
+    o = impl.split(" ")
+    return (t[0], prop, o[0], o[-1] if o[0] in ("ok", "err") else "", min(len(f) // 2, 120), t[2] != "-")
+
+
+def run_valueexec(ctx, exe, seeds, sigs, want):
+    """EXECUTE frames: the real DecodeLockCommand (and LockDB.Lock end to end) vs `decodeFrame`."""
+    n = 20000 if ctx.tier == "quick" else 200000
+    big = 0
+    for sd in seeds:
+        outdir = ctx.run_harness(exe, "valueexec", n, seed=sd)
+        if not outdir:
+            continue
+        dis = ctx.diff(outdir, "valueexec", classify=classify_exec)
+        for k, v in read_monitor(ctx, outdir, "valueexec", want).items():
+            sigs[k] = sigs.get(k, 0) + v
+        for line in open(os.path.join(outdir, "valueexec.impl")):
+            if line.startswith("err 1"):
+                big += 1
+        if dis:
+            d = dis[0]
+            ctx.broken.append({"kind": "correspondence", "name": "decodeFrame vs real DecodeLockCommand",
+                               "detail": f"{len(dis)} disagreements; first: op={d[1][:600]} impl={d[2][:300]} model={d[3][:300]}"})
+    # observation, not a violation: the announced length is used for make() before it is checked against the frame
+    ctx.cov["alloc_before_check"] = {"frames_refused_after_allocating_64KiB_or_more": big,
+                                     "note": "DecodeLockCommand allocates dataLen+4 bytes (client-chosen, up to 4 GiB) before comparing dataLen with the frame"}
 
 
 def run_value(ctx, want=None, which=("C15", "C13")):
@@ -104,6 +142,8 @@ def run_value(ctx, want=None, which=("C15", "C13")):
             d = dis[0]
             ctx.broken.append({"kind": "correspondence", "name": "M-VALUE vs real ProcessLockData",
                                "detail": f"{len(dis)} disagreements; first: op={d[1][:600]} impl={d[2][:600]} model={d[3][:600]}"})
+    if "C13" in which:
+        run_valueexec(ctx, exe, seeds, sigs, want)
     ctx.cov["value_monitor_signatures"] = sigs
     vlib.log("value monitor signatures:", json.dumps(sigs, sort_keys=True))
     ctx.cov["rule"] = ("seeded sequences of 1..7 value frames per line on a bare LockManager (60% well-formed operations built with the real "
